@@ -171,7 +171,8 @@ def gen(stratum, rng, tier):
     if stratum == "anneal":
         mi = rng.choice(_ITERS + ([1000, 3000] if tier == "thorough" else []))
         c["opts"] = {"max_iter": mi, "temperature": rng.choice([0.01, 0.5, 10.0, 1000.0]),
-                     "cooling": rng.choice([0.9995, 0.9995, 0.99, 0.9, 0.5, ("linear", 1e-8), ("linear", 0.25), ("log", 1.0)]),
+                     "cooling": rng.choice([0.9995, 0.9995, 0.99, 0.9, 0.5, ("linear", 1e-8), ("linear", 0.25), ("log", 1.0),
+                                            ("exp", 0.99), ("exp", 0.9), ("exp", 0.9995)]),
                      "min_temp": rng.choice([1e-8, 1e-8, 1e-3])}
         c["step"] = rng.choice([0.25, 0.5, 1.0])
         c["grid"] = rng.random() < 0.5
@@ -354,7 +355,11 @@ def _launcher(case):
         A = _m["anneal"]
         cool = opts.pop("cooling")
         if isinstance(cool, (tuple, list)):
-            cool_f = (lambda: A.linear_cooling(cool[1])) if cool[0] == "linear" else (lambda: A.logarithmic_cooling(cool[1]))
+            # ONE schedule object for all runs of the case (the repeated run, the mirrored run): the documented schedules
+            # are functions of (initial_temp, iteration, max_iter) - a caller builds one and passes it wherever needed
+            maker = {"linear": A.linear_cooling, "log": A.logarithmic_cooling, "exp": A.exponential_cooling}[cool[0]]
+            shared = maker(cool[1])
+            cool_f = lambda: shared  # noqa: E731
         else:
             cool_f = lambda: cool  # noqa: E731
 
